@@ -242,6 +242,25 @@ def check(case):
                     w2["l"] = "VROOT"
                 if M.canon(s2, fields, ("l", "e")) != M.canon(w2, fields, ("l", "e")):
                     raise violation(prefix + "/own-reader-differs", "sentence %d read back differently from what the file encodes" % (i + 1))
+        # A -> B -> C: a second conversion into a third format
+        third = case.get("third")
+        if dfmt != "terminals" and third and not (third == "brackets" and any(M.tree_gapdeg(t["root"]) > 0 for t in trees)):
+            cprefix = "C03/to-%s-then-to-%s" % (dfmt, third)
+            cfile = os.path.join(tmpdir, "third." + third)
+            sthird = ["quiet"] + (["gf_split"] if "gf" in dopt_set else [])
+            copts = ["export_four"] if third == "export" else []
+            convert(cprefix, dest, cfile, dfmt, third, denc, "utf-8", sthird, copts, sub)
+            mem_b = [sim_read(dfmt, e, v4=out_v4, gf_split="gf" in dopt_set) for e in expected]
+            for m2 in mem_b:
+                if dfmt in ("brackets", "discobrackets") and "brackets_emptyroot" in dopt_set:
+                    m2["l"] = "VROOT"
+            exp_c = [sim_write(third, m, set(copts)) for m in mem_b]
+            dec_c = decode_dest(cprefix, third, cfile, "utf-8", third == "export")
+            if len(dec_c) != len(trees):
+                raise violation(cprefix + "/number-of-sentences", "%d vs %d" % (len(dec_c), len(trees)))
+            for i, ((sid, got), exp) in enumerate(zip(dec_c, exp_c)):
+                if comparable(third, got, third == "export") != comparable(third, exp, third == "export"):
+                    raise violation(cprefix + "/content-lost-or-changed", "sentence %d: %s" % (i + 1, describe_diff(third, got, exp, third == "export")))
         # A -> B -> A
         if dfmt != "terminals" and case.get("back", True):
             back = os.path.join(tmpdir, "back." + sfmt)
@@ -325,11 +344,13 @@ def conv_case(draw, max_tokens, max_sents, sub_fraction):
         dopts.append("brackets_emptyroot")
     return {"src": sfmt, "dest": dfmt, "src_enc": senc, "dest_enc": denc, "trees": trees, "v4": draw(st.booleans()),
             "gz": sfmt != "tigerxml" and draw(st.integers(0, 4)) == 0, "dirmode": draw(st.integers(0, 5)) == 0, "dest_opts": dopts,
-            "sub": draw(st.floats(0, 1)) < sub_fraction, "back": True}
+            "sub": draw(st.floats(0, 1)) < sub_fraction, "back": True, "third": draw(st.sampled_from([None, None] + DEST))}
 
 
 def classes_of(case):
     out = ["pair=%s>%s" % (case["src"], case["dest"]), "src-enc=" + case["src_enc"], "dest-enc=" + case["dest_enc"]]
+    if case.get("third") and case["dest"] != "terminals":
+        out.append("chain=%s>%s>%s" % (case["src"], case["dest"], case["third"]))
     for flag in ("gz", "dirmode", "sub"):
         if case.get(flag):
             out.append(flag)
@@ -346,7 +367,7 @@ def trivial(case):
 
 def smaller(case):
     out = [dict(case, trees=case["trees"][:i] + case["trees"][i + 1:]) for i in range(len(case["trees"])) if len(case["trees"]) > 1]
-    for key, val in (("gz", False), ("dirmode", False), ("src_enc", "utf-8"), ("dest_enc", "utf-8")):
+    for key, val in (("gz", False), ("dirmode", False), ("src_enc", "utf-8"), ("dest_enc", "utf-8"), ("third", None)):
         if case.get(key) != val:
             out.append(dict(case, **{key: val}))
     for opt in case["dest_opts"]:
@@ -380,7 +401,7 @@ def gen(ctx):
             except Violation as vio:
                 vio = ctx.minimize(vio, lambda c: ctx._quiet(check, c), smaller, budget=25)
                 ctx.record(vio)
-    ctx.hyp(conv_case(7 if quick else 10, 4 if quick else 6, 0.12 if quick else 1.0), body, max_examples=150 if quick else 800, shrink=False, smaller=smaller)
+    ctx.hyp(conv_case(7 if quick else 10, 4 if quick else 6, 0.12 if quick else 1.0), body, max_examples=110 if quick else 800, shrink=False, smaller=smaller)
 
 
 UNITS = [Unit("conversions", gen, check, shards=(12, 16))]
